@@ -32,7 +32,10 @@ fn main() {
     let global = read_num(&dir.join("count")) + 1;
     let _ = std::fs::write(dir.join("count"), global.to_string());
     let sub = args.first().copied().unwrap_or("");
-    let cleanup = prog == "docker" && (sub == "rm" || sub == "rmi" || sub == "volume");
+    let sub2 = args.get(1).copied().unwrap_or("");
+    let listing = prog == "docker"
+        && (sub == "ps" || sub == "images" || ((sub == "image" || sub == "volume" || sub == "container") && (sub2 == "ls" || sub2 == "list")));
+    let cleanup = prog == "docker" && !listing && (sub == "rm" || sub == "rmi" || sub == "volume");
     let nc_index = if cleanup {
         None
     } else {
@@ -170,6 +173,31 @@ fn main() {
                 out.push_str("127.0.0.1:49153\n");
             } else {
                 out.push_str("some output\n");
+            }
+        }
+        ("docker", _) if listing => {
+            // `docker ps -a` / `image ls` / `volume ls`, optionally `--filter name=<pattern>` or
+            // `reference=<pattern>`: names only, one per line
+            let kind = match sub {
+                "ps" | "container" => "containers",
+                "images" | "image" => "images",
+                _ => "volumes",
+            };
+            let pattern: Option<String> = args
+                .iter()
+                .filter_map(|a| a.split_once('=').filter(|(k, _)| k.ends_with("name") || k.ends_with("reference")).map(|(_, v)| v))
+                .chain(args.windows(2).filter(|w| w[0] == "--filter" || w[0] == "-f").filter_map(|w| w[1].split_once('=').map(|(_, v)| v)))
+                .map(|v| v.trim_matches(|c| c == '^' || c == '*' || c == '$' || c == '"').to_string())
+                .next();
+            if let Ok(rd) = std::fs::read_dir(state.join(kind)) {
+                let mut names: Vec<String> = rd.flatten().map(|e| e.file_name().to_string_lossy().into_owned()).collect();
+                names.sort();
+                for n in names {
+                    if pattern.as_ref().is_none_or(|p| n.contains(p.as_str())) {
+                        out.push_str(&n);
+                        out.push('\n');
+                    }
+                }
             }
         }
         ("docker", "rm") => {
